@@ -275,7 +275,7 @@ Section Sim.
 
   (* ---- well-formed components / levels: what build_check and the two guards give ------------- *)
   Definition comp_wf (c : comp) : Prop :=
-    build_check c = Ok tt /\ guardA_comp c = true /\ guardB_comp c = true.
+    build_check c = Ok tt /\ guardB_comp c = true.
 
   Definition lv_wf (lv : level) : Prop :=
     match lv with
@@ -357,19 +357,20 @@ Section Sim.
 
   (* the three shapes, unfolded once and for all *)
   Lemma comp_wf_fn n s : comp_wf (CFn n s) -> check_fn_sig s = Ok tt /\ sig_guard3 s = true.
-  Proof. intros [HB [HG HG2]]. simpl in *. auto. Qed.
+  Proof. intros [HB HG2]. simpl in *. auto. Qed.
 
   Lemma comp_wf_cls n i ms : comp_wf (CCls n i ms) ->
-    meth_names_ok i ms = true /\ has_param s_subcommand i = false /\ check_fn_sig i = Ok tt /\
+    meth_names_ok i ms = true /\ (ms <> [] -> has_param s_subcommand i = false) /\ check_fn_sig i = Ok tt /\
     sig_guard3 i = true /\
     (forall m s, In (m, s) ms -> check_meth_sig s = Ok tt /\ sig_guard3 s = true).
   Proof.
-    intros [HB [HG HG2]]. simpl in *. apply negb_true_iff in HG. rewrite HG in HB. simpl in HB.
-    rewrite orb_false_r in HB.
-    destruct (meth_names_ok i ms) eqn:E1; [|discriminate].
-    simpl in HB. destruct (check_fn_sig i) as [[]|] eqn:E3; [|discriminate]. simpl in HB.
+    intros [HB HG2]. simpl in *.
+    destruct (meth_names_ok i ms) eqn:E1; [|discriminate]. simpl in HB.
+    destruct (has_param s_subcommand i && nonempty ms) eqn:E2; [discriminate|].
+    destruct (check_fn_sig i) as [[]|] eqn:E3; [|discriminate]. simpl in HB.
     apply andb_true_iff in HG2. destruct HG2 as [HG2 HG3].
     repeat split; auto.
+    - intro HN. destruct ms; [congruence|]. simpl in E2. rewrite andb_true_r in E2. exact E2.
     - eapply check_meths_In; eauto.
     - rewrite forallb_forall in HG3. apply (HG3 _ H).
   Qed.
@@ -378,12 +379,11 @@ Section Sim.
     kid_names_ok kids = true /\ mem_str s_subcommand (map fst kids) = false /\
     (forall m c, In (m, c) kids -> comp_wf c).
   Proof.
-    intros [HB [HG HG2]]. simpl in *.
+    intros [HB HG2]. simpl in *.
     destruct (kid_names_ok kids) eqn:E1; [|discriminate]. simpl in HB.
     destruct (mem_str s_subcommand (map fst kids)) eqn:E2; [discriminate|].
     repeat split; auto.
     - eapply go_build_In; eauto.
-    - eapply go_guard_In; eauto.
     - eapply go_guard2_In; eauto.
   Qed.
 
@@ -1069,16 +1069,21 @@ Section Sim.
     rewrite kwargs_cvmap. cbn [bind]. rewrite HC. reflexivity.
   Qed.
 
-  Lemma run_cls0 n i ms top asg b :
-    comp_wf (CCls n i ms) -> py_call i (ns_args (args_of_sig false as_pos i) asg) = Ok b ->
-    run_component false (CCls n i ms) (nest [mkf top (LComp (CCls n i ms)) asg None]) = Ok ([([n; s__init__], b)], RetInstance).
+  Lemma assoc_cvmap k (l : ns) : assoc k (cvmap l) = option_map CV (assoc k l).
+  Proof. induction l as [|[k' v] l IH]; simpl; auto. destruct (str_eqb k k'); auto. Qed.
+
+  Lemma run_cls0 n i top asg b :
+    comp_wf (CCls n i []) -> py_call i (ns_args (args_of_sig false as_pos i) asg) = Ok b ->
+    run_component false (CCls n i []) (nest [mkf top (LComp (CCls n i [])) asg None]) = Ok ([([n; s__init__], b)], RetInstance).
   Proof.
-    intros HW HC. apply comp_wf_cls in HW. destruct HW as [_ [H2 [H1 _]]].
-    apply check_fn_sig_ok in H1. destruct H1 as [_ [H1 _]]. apply has_param_false in H2.
+    intros HW HC. apply comp_wf_cls in HW. destruct HW as [_ [_ [H1 _]]].
+    apply check_fn_sig_ok in H1. destruct H1 as [_ [H1 _]].
     unfold nest, mkf. unfold level_args; cbn [fr_ns fr_sub level_sig]. rewrite app_nil_r.
-    unfold run_component. rewrite remove_config_entry by auto. rewrite assoc_cv_none by auto.
-    rewrite remove_cv_notin by auto.
-    rewrite kwargs_cvmap. cbn [bind]. rewrite HC. reflexivity.
+    unfold run_component. rewrite remove_config_entry by auto. rewrite assoc_cvmap.
+    destruct (assoc s_subcommand (ns_args (args_of_sig false as_pos i) asg)) as [v|] eqn:EA; cbn [option_map].
+    - rewrite kwargs_cvmap. cbn [bind]. rewrite HC. reflexivity.
+    - rewrite remove_key_notin by (rewrite keys_cvmap; apply assoc_None; exact EA).
+      rewrite kwargs_cvmap. cbn [bind]. rewrite HC. reflexivity.
   Qed.
 
   Lemma meth_ok_facts i ms m s :
@@ -1100,6 +1105,7 @@ Section Sim.
     Ok (([n; s__init__], b) :: log, shift ret).
   Proof.
     intros HW HC HA HCh. apply comp_wf_cls in HW. destruct HW as [HM [H2 [H1 [_ HMs]]]].
+    assert (HNE : ms <> []) by (intro X; subst ms; discriminate). specialize (H2 HNE).
     apply check_fn_sig_ok in H1. destruct H1 as [_ [H1 _]]. apply has_param_false in H2.
     destruct (meth_ok_facts _ _ _ _ HM HA) as [F1 [F2 F3]].
     inversion HCh; subst. clear HCh.
@@ -1173,21 +1179,19 @@ Section Sim.
       cbn [dispatch_loop]. rewrite HCf.
       destruct (assoc s_subcommand (nest [mkf top (LComp (CFn n s)) asg None])) as [[[z|m|b0| |l]|x]|]; try reflexivity.
       rewrite (comps_get_snoc_leaf path HP kids0 (CFn n s) m); auto.
-    - (* a class without methods *)
+    - (* a class without methods: like a function *)
       exists path, (CCls n i []), (nest [mkf top (LComp (CCls n i [])) asg None]).
       split; [|split; [auto|split; [auto|apply run_cls0; auto]]].
       cbn [dispatch_loop]. rewrite HCf.
-      assert (HN : assoc s_subcommand (nest [mkf top (LComp (CCls n i [])) asg None]) = None).
-      { apply comp_wf_cls in HW. destruct HW as [_ [H2 _]]. apply has_param_false in H2.
-        unfold nest, mkf. unfold level_args; cbn [fr_ns fr_sub level_sig]. rewrite app_nil_r, map_app, assoc_app.
-        rewrite (assoc_cv_none i asg s_subcommand H2). destruct (level_has_config false as_pos top (LComp (CCls n i []))); reflexivity. }
-      rewrite HN. reflexivity.
+      destruct (assoc s_subcommand (nest [mkf top (LComp (CCls n i [])) asg None])) as [[[z|m|b0| |l]|x]|]; try reflexivity.
+      rewrite (comps_get_snoc_leaf path HP kids0 (CCls n i []) m); auto.
     - (* a class and one of its methods *)
       exists path, (CCls n i ms), (nest (mkf top (LComp (CCls n i ms)) asg (Some m) :: fs)).
       split; [|split; [auto|split; [auto|eapply run_cls; eauto]]].
       cbn [dispatch_loop]. rewrite HCf.
       assert (HN : assoc s_subcommand (nest (mkf top (LComp (CCls n i ms)) asg (Some m) :: fs)) = Some (CV (VStr m))).
-      { apply comp_wf_cls in HW. destruct HW as [_ [H2 _]]. apply has_param_false in H2.
+      { apply comp_wf_cls in HW. destruct HW as [_ [H2 _]].
+        assert (HNE : ms <> []) by (intro X; subst ms; discriminate). specialize (H2 HNE). apply has_param_false in H2.
         unfold mkf, level_args; cbn [nest fr_ns fr_sub level_sig]. rewrite map_app, !assoc_app.
         rewrite (assoc_cv_none i asg s_subcommand H2). cbn [assoc]. rewrite str_eqb_refl.
         destruct (level_has_config false as_pos top (LComp (CCls n i ms))); reflexivity. }
@@ -1316,7 +1320,7 @@ Section Sim.
 
   (* ---- the theorem: under the two guards the code-shaped model does what the reference semantics says *)
   Theorem model_refines_spec cs toks :
-    no_class_subcommand_param cs = true -> no_nullish_str_default cs = true ->
+    no_nullish_str_default cs = true ->
     match auto_cli false conv as_pos cs toks with
     | Ok (log, ret) => spec conv as_pos cs toks = Done log ret
     | Err EParse => spec conv as_pos cs toks = Rejected
@@ -1325,7 +1329,7 @@ Section Sim.
     | Err _ => True
     end.
   Proof.
-    intros G1 G2. unfold auto_cli, spec, sp_run.
+    intros G2. unfold auto_cli, spec, sp_run.
     pose proof (normalize_spec cs) as HN. destruct (normalize cs) as [c|e]; cbn [bind].
     2:{ destruct e; try contradiction; auto. rewrite HN. reflexivity. }
     destruct HN as [HT [HNH [HG1 HG2]]]. rewrite HT.
@@ -1377,21 +1381,21 @@ Section Sim.
   Qed.
 
   Corollary binds_exactly cs toks log ret :
-    no_class_subcommand_param cs = true -> no_nullish_str_default cs = true ->
+    no_nullish_str_default cs = true ->
     auto_cli false conv as_pos cs toks = Ok (log, ret) -> spec conv as_pos cs toks = Done log ret.
-  Proof. intros G1 G2 H. pose proof (model_refines_spec cs toks G1 G2) as HR. rewrite H in HR. exact HR. Qed.
+  Proof. intros G2 H. pose proof (model_refines_spec cs toks G2) as HR. rewrite H in HR. exact HR. Qed.
 
   Corollary never_crashes cs toks :
-    no_class_subcommand_param cs = true -> no_nullish_str_default cs = true ->
+    no_nullish_str_default cs = true ->
     auto_cli false conv as_pos cs toks <> Err ECrash.
-  Proof. intros G1 G2 H. pose proof (model_refines_spec cs toks G1 G2) as HR. rewrite H in HR. exact HR. Qed.
+  Proof. intros G2 H. pose proof (model_refines_spec cs toks G2) as HR. rewrite H in HR. exact HR. Qed.
 
   Corollary rejects_exactly cs toks :
-    no_class_subcommand_param cs = true -> no_nullish_str_default cs = true ->
+    no_nullish_str_default cs = true ->
     (auto_cli false conv as_pos cs toks = Err EParse -> spec conv as_pos cs toks = Rejected) /\
     (auto_cli false conv as_pos cs toks = Err EBuild -> spec conv as_pos cs toks = Refused).
   Proof.
-    intros G1 G2. pose proof (model_refines_spec cs toks G1 G2) as HR.
+    intros G2. pose proof (model_refines_spec cs toks G2) as HR.
     split; intro H; rewrite H in HR; exact HR.
   Qed.
 
@@ -1532,7 +1536,6 @@ Section Sim.
 
   (* for a class given to auto_cli: constructor and method each receive exactly their own parameters *)
   Theorem class_split n i ms toks log ret :
-    no_class_subcommand_param (One (CCls n i ms)) = true ->
     no_nullish_str_default (One (CCls n i ms)) = true ->
     auto_cli false conv as_pos (One (CCls n i ms)) toks = Ok (log, ret) ->
     exists b1, map fst b1 = names i /\
@@ -1540,7 +1543,7 @@ Section Sim.
        (exists m s b2, assoc m ms = Some s /\ map fst b2 = names s /\
                        log = [([n; s__init__], b1); ([n; m], b2)] /\ ret = RetCall 1)).
   Proof.
-    intros G1 G2 H. pose proof (binds_exactly _ _ _ _ G1 G2 H) as HS.
+    intros G2 H. pose proof (binds_exactly _ _ _ _ G2 H) as HS.
     unfold spec, sp_run in HS. cbn [sp_top slevel_of] in HS.
     destruct (sp_refuses (CCls n i ms)); [discriminate|].
     destruct (sp_walk conv as_pos true (SCls n i ms) [] 0 [] toks) as [[log' ret']|] eqn:EW; [|discriminate].
@@ -1648,7 +1651,7 @@ Definition w_ex_toks : list tok :=
    KPos (RStr w_tool); KPos (RInt 9); KPos (RStr w_train); KOpt w_alpha (RInt 4); KPos (RBool true); KOpt w_alpha (RInt 5)].
 
 Lemma guards_satisfiable :
-  no_class_subcommand_param w_ex_comps = true /\ no_nullish_str_default w_ex_comps = true /\
+  no_nullish_str_default w_ex_comps = true /\
   auto_cli false conv_simple true w_ex_comps w_ex_toks =
     Ok ([([w_tool; s__init__], [(w_alpha, VInt 9); (w_beta, VStr w_sigma)]);
          ([w_tool; w_train], [(w_alpha, VInt 5); (w_sigma, VBool true)])], RetCall 1).
@@ -1663,16 +1666,18 @@ Lemma round1_inputs_repaired :
     [KPos (RStr w_train); KOpt s_config (RInt 7)]
     = Ok ([([w_tool; s__init__], [(w_alpha, VInt 1)]); ([w_tool; w_train], [(s_config, VInt 7)])], RetCall 1) /\
   auto_cli false conv_simple true (One (CFn w_run [w_p w_hid (TOpt TInt) None; w_p w_sigma TBool None])) [KPos (RBool true)]
-    = Ok ([([w_run], [(w_hid, VNone); (w_sigma, VBool true)])], RetCall 0).
+    = Ok ([([w_run], [(w_hid, VNone); (w_sigma, VBool true)])], RetCall 0) /\
+  auto_cli false conv_simple true (One (CCls w_tool [w_p s_subcommand TInt (Some (VInt 1))] [])) [KOpt s_subcommand (RInt 5)]
+    = Ok ([([w_tool; s__init__], [(s_subcommand, VInt 5)])], RetInstance).
 Proof. vm_compute. auto. Qed.
 
-(* ---- the two guards of the present theorem are needed (open findings on the present code) ---- *)
+(* ---- round 3: one finding repaired in /repo 4bb4764 (witness about auto_cli true), one open (the guard of the theorem) ---- *)
 (* class Tool: def __init__(self, subcommand: int = 1)  (no public methods), `--subcommand=5`:
    _run_component pops "subcommand" for every class and takes 5 for a method name: TypeError escapes *)
 Lemma class_subcommand_refuted :
   exists cs toks,
-    no_class_subcommand_param cs = false /\ no_nullish_str_default cs = true /\
-    auto_cli false conv_simple true cs toks = Err ECrash /\
+    no_class_subcommand_param cs = false /\
+    auto_cli true conv_simple true cs toks = Err ECrash /\
     spec conv_simple true cs toks = Done [([w_tool; s__init__], [(s_subcommand, VInt 5)])] RetInstance.
 Proof.
   exists (One (CCls w_tool [w_p s_subcommand TInt (Some (VInt 1))] [])), [KOpt s_subcommand (RInt 5)].
@@ -1683,7 +1688,7 @@ Qed.
 Definition w_null : str := [110;117;108;108]%N.
 Lemma nullish_default_refuted :
   exists cs toks,
-    no_class_subcommand_param cs = true /\ no_nullish_str_default cs = false /\
+    no_nullish_str_default cs = false /\
     auto_cli false conv_simple true cs toks = Ok ([([w_run], [(w_alpha, VNone)])], RetCall 0) /\
     spec conv_simple true cs toks = Done [([w_run], [(w_alpha, VStr w_null)])] (RetCall 0).
 Proof.
